@@ -23,6 +23,7 @@ Check @variant_names_distinct.
 Check @plain_payload.
 Check @struct_expansion_end_to_end.
 Check @declared_type_obeys_C01.
+Check @alias_names_injective.
 Print Assumptions parse_complete.
 Print Assumptions option_is_recognised.
 Print Assumptions print_parse_roundtrip.
@@ -44,3 +45,4 @@ Print Assumptions variant_names_distinct.
 Print Assumptions plain_payload.
 Print Assumptions struct_expansion_end_to_end.
 Print Assumptions declared_type_obeys_C01.
+Print Assumptions alias_names_injective.
